@@ -433,8 +433,51 @@ fn gen_history(rng: &mut Prng) -> History {
     History { cfg, ops }
 }
 
+/// Log level: a log file is re-opened for appending (what recovery does with `reuse_log_files`) while
+/// one filesystem call of that session fails. If the writer is handed out and its appends return Ok,
+/// the records must be readable afterwards, behind the records of the first session.
+fn log_reopen_under_fault(seed: u64, rep: &mut Report) {
+    let mut rng = Prng::new(seed);
+    let fs = SimFs::new();
+    let path = std::path::Path::new("/wal-1.log");
+    let first: Vec<Vec<u8>> = (0..rng.range(1, 4)).map(|i| vec![b'a' + i as u8; rng.range(1, 30_000) as usize]).collect();
+    let second: Vec<Vec<u8>> = (0..rng.range(2, 40)).map(|i| vec![b'A' + (i % 26) as u8; *rng.pick(&[10usize, 1000, 1057, 5000, 20_000, 40_000])]).collect();
+    if raindb::verif::log_write(fs.dyn_fs(), path, false, &first).map_or(true, |r| r.iter().any(|x| x.is_err())) {
+        return;
+    }
+    let base = fs.snapshot();
+    // call 0 = create/open for append, call 1 = size of the existing file, then writes and flushes
+    for at in 0..rng.range(2, 7) {
+        let fs = base.snapshot();
+        fs.reset_calls();
+        fs.record_calls(true);
+        fs.set_fault(Some(FaultPlan { at, sticky: false }));
+        let line = format!("c08log seed={seed} at={at}");
+        let res = raindb::verif::log_write(fs.dyn_fs(), path, true, &second);
+        let fired = fs.faults_fired() > 0;
+        let hit = fs.call_kinds().get(at as usize).cloned();
+        fs.set_fault(None);
+        rep.case(&line, fired);
+        rep.count("c08.log-reopen-under-fault");
+        let acked: Vec<Vec<u8>> = match &res {
+            Err(_) => vec![],
+            Ok(rs) => second.iter().zip(rs.iter()).take_while(|(_, r)| r.is_ok()).map(|(d, _)| d.clone()).collect(),
+        };
+        let all_ok = matches!(&res, Ok(rs) if rs.len() == second.len() && rs.iter().all(|r| r.is_ok()));
+        let Ok((got, _err)) = raindb::verif::log_read_all(fs.dyn_fs(), path) else { continue };
+        let mut want = first.clone();
+        want.extend(acked.iter().cloned());
+        let ok = got.len() >= want.len() && got[..want.len()] == want[..] && got[want.len()..].iter().all(|r| second.contains(r));
+        if !ok {
+            let sig = if fired && all_ok { "c08:log-writer-swallows-io-error-and-loses-records" } else { "c08:acknowledged-log-record-lost-after-io-error" };
+            rep.fail("oracle", sig, &format!("a log of {} records was re-opened for appending while call {at} of the session ({:?}) failed; {} appends returned Ok{}; reading the file back gives {} records of lengths {:?}, expected the {} first-session records followed by the {} acknowledged ones (lengths {:?})", first.len(), hit, acked.len(), if all_ok { " (every call of the session reported success: the failure was swallowed)" } else { "" }, got.len(), got.iter().map(|r| r.len()).collect::<Vec<_>>(), first.len(), acked.len(), want.iter().map(|r| r.len()).collect::<Vec<_>>()), &line);
+            return;
+        }
+    }
+}
+
 pub fn rule() -> &'static str {
-    "histories (puts, deletes, batches, fills forcing flushes, gets, scans, manual compactions, reopens) on SimFs with a single injected filesystem failure at call position n of the whole call stream (create, write/append, rename, remove, open-for-read, size, list, lock …), transient (that call) and sticky (that call and all later ones); every position for streams up to the budget, an even sample beyond; then the fault is removed and the database reopened. Non-trivial = the fault fired and at least one write had been acknowledged before the end; distinct by (history, position, mode)."
+    "histories (puts, deletes, batches, fills forcing flushes, gets, scans, manual compactions, reopens) on SimFs with a single injected filesystem failure at call position n of the whole call stream (create, write/append, rename, remove, open-for-read, size, list, lock …), transient (that call) and sticky (that call and all later ones); every position for streams up to the budget, an even sample beyond; then the fault is removed and the database reopened; plus, at log level, a log file re-opened for appending while one call of that session fails (records acknowledged must be readable behind the first session's). Non-trivial = the fault fired and at least one write had been acknowledged before the end; distinct by (history, position, mode)."
 }
 
 pub fn run(tier: &str, seed: u64, replay: Option<&str>, corpus_dir: &str, shard: Option<ShardArgs>, drv_path: &str) -> Report {
@@ -442,6 +485,11 @@ pub fn run(tier: &str, seed: u64, replay: Option<&str>, corpus_dir: &str, shard:
     let mut rep = Report::new("c08", rule());
     let thorough = tier == "thorough";
     if let Some(line) = replay {
+        if line.starts_with("c08log ") {
+            let s = line.split_whitespace().find_map(|t| t.strip_prefix("seed=")).and_then(|s| s.parse().ok()).unwrap_or(0);
+            log_reopen_under_fault(s, &mut rep);
+            return rep;
+        }
         let Some(h) = History::from_line(line) else {
             rep.fail("oracle", "c08:bad-replay", "cannot parse replay case", line);
             return rep;
@@ -476,6 +524,13 @@ pub fn run(tier: &str, seed: u64, replay: Option<&str>, corpus_dir: &str, shard:
     }
     let (idx, cnt) = shard.as_ref().map_or((0, 1), |s| (s.index, s.count));
     let shard_opt = shard;
+    let nlog = if thorough { 4000 } else { 400 };
+    for i in 0..nlog {
+        let s = rng.next() % 1_000_000_000;
+        if i % cnt == idx {
+            log_reopen_under_fault(s, &mut rep);
+        }
+    }
     for (j, h) in jobs.iter().enumerate() {
         if j % cnt != idx {
             continue;
